@@ -297,10 +297,10 @@ func managerStep(op int) {
 			wantID, hasWant = fid, true
 		}
 		statusKnown := st == Enabled || st == Disabled || st == Destroyed
-		wantErr := (fixed && req && fid != id) || !statusKnown || (prim && st != Enabled) || (hasWant && find(before, wantID) >= 0)
+		wantErr := (fixed && req && fid != id) || !statusKnown || (prim && st != Enabled) || (hasWant && m.unavailableKeyIDs[wantID]) // in use now or handed out earlier
 		got, err := m.AddKeyWithOpts(nk, internalapi.Token{}, opts...)
 		if wantErr {
-			verifrt.Assert(err != nil, "AddKeyWithOpts refuses: WithFixedID against the key's own id requirement, an unknown status, a primary that is not ENABLED, a fixed id already in use")
+			verifrt.Assert(err != nil, "AddKeyWithOpts refuses: WithFixedID against the key's own id requirement, an unknown status, a primary that is not ENABLED, a fixed id that is in use or was ever handed out")
 		}
 		if err != nil {
 			// The property lists Add / AddKey / AddNewKeyFromParameters; for this internal entry
